@@ -17,7 +17,7 @@ use cglue_macro::check;
 use defs::*;
 use explore::driver::{CheckDef, Section};
 use explore::{digest, hist, CaseOut, Cx, HistSut, StepOut, Tier};
-use instr::{alloc, DcHeap, DropScope};
+use instr::{alloc, DcHeap, DcZst, DropScope};
 use serde::{Deserialize, Serialize};
 use serde_json::{json, Value};
 use std::sync::atomic::{AtomicU64, Ordering::SeqCst};
@@ -48,11 +48,15 @@ struct CtxP {
 thread_local! {
     /// capture a backtrace when the context payload is dropped (only the consume_last section needs it)
     static CAPTURE: std::cell::Cell<bool> = const { std::cell::Cell::new(false) };
+    /// sequence number of the context payload's destruction (see defs::next_seq)
+    static CTX_SEQ: std::cell::Cell<u64> = const { std::cell::Cell::new(0) };
 }
 
 impl Drop for CtxP {
     fn drop(&mut self) {
         let inside = CAPTURE.with(|c| c.get()) && alloc::untracked(|| std::backtrace::Backtrace::force_capture().to_string().contains("cglue_wrapped_"));
+        let n = defs::next_seq();
+        let _ = CTX_SEQ.try_with(|c| c.set(n));
         self.dropped.store(if inside { 2 } else { 1 }, SeqCst);
     }
 }
@@ -67,6 +71,12 @@ enum Ent {
     Fin(Box<dyn DynLeaf>),
     Boxed(CBox<'static, DcHeap>),
     Slice(CSliceBox<'static, DcHeap>),
+    /// zero-sized payloads with a destructor
+    BoxedZ(CBox<'static, DcZst>),
+    SliceZ(CSliceBox<'static, DcZst>),
+    /// opaque forms (into_opaque)
+    OBoxed(CBox<'static, c_void>),
+    OSlice(CSliceBox<'static, c_void>),
 }
 
 #[derive(Clone, Copy, Debug, Serialize, Deserialize, PartialEq, Eq, Hash)]
@@ -84,6 +94,10 @@ enum Op {
     NewLeaf,
     NewCBox,
     NewSliceBox(usize),
+    NewCBoxZst,
+    NewSliceBoxZst(usize),
+    /// into_opaque of a CBox / CSliceBox entry
+    IntoOpaque(usize),
     /// plain call on entry i (any kind)
     Call(usize),
     Child(usize),
@@ -93,6 +107,10 @@ enum Op {
     ChildGroupRef(usize),
     Consume(usize),
     ConsumeInto(usize),
+    /// by-value call returning Result<wrapped child, ()> (CResult / integer-coded); Err when an odd number of
+    /// children was handed out before
+    ConsumeTry(usize),
+    ConsumeTryInt(usize),
     Check(usize, Sub),
     AsRef(usize, Sub),
     AsMut(usize, Sub),
@@ -117,9 +135,15 @@ enum Kind {
     Fin,
     Boxed,
     Slice,
+    BoxedZ,
+    SliceZ(usize),
+    OBoxed(usize),
+    OSlice(usize),
 }
 
 struct Meta {
+    /// zero-sized payloads owned
+    zst: usize,
     kind: Kind,
     owned: Vec<usize>,
     holds_ctx: bool,
@@ -147,6 +171,8 @@ fn sub_set(s: Sub) -> u8 {
 }
 
 struct World {
+    /// per node (keyed by its first payload id): number of owned children handed out (mirrors NodeImp::made)
+    kids_made: std::collections::HashMap<usize, u64>,
     arc: Arc<CtxP>,
     ents: Vec<(Ent, Meta)>,
     borrowed_calls: u64,
@@ -174,6 +200,9 @@ impl Sut {
                 v.push(Op::NewCBox);
                 v.push(Op::NewSliceBox(0));
                 v.push(Op::NewSliceBox(2));
+                v.push(Op::NewCBoxZst);
+                v.push(Op::NewSliceBoxZst(0));
+                v.push(Op::NewSliceBoxZst(3));
             }
         }
         for (i, k) in metas.iter().enumerate() {
@@ -189,6 +218,8 @@ impl Sut {
                     v.push(Op::ChildGroupRef(i));
                     v.push(Op::Consume(i));
                     v.push(Op::ConsumeInto(i));
+                    v.push(Op::ConsumeTry(i));
+                    v.push(Op::ConsumeTryInt(i));
                 }
                 Kind::Grp(en) => {
                     for s in [Sub::C, Sub::E, Sub::CE] {
@@ -209,6 +240,7 @@ impl Sut {
                     }
                 }
                 Kind::GE(_) => v.push(Op::Upcast(i)),
+                Kind::Boxed | Kind::Slice | Kind::BoxedZ | Kind::SliceZ(_) => v.push(Op::IntoOpaque(i)),
                 _ => {}
             }
             v.push(Op::Drop(i));
@@ -218,10 +250,11 @@ impl Sut {
 
     fn exec(&self, hist: &[Op], obs: &mut Vec<u64>) -> V<(u64, Vec<Kind>)> {
         let drops = DropScope::new();
+        DcZst::reset();
         let flag = alloc::untracked(|| Arc::new(AtomicU64::new(0)));
         let arc = Arc::new(CtxP { dropped: flag.clone() });
         // leaked, not dropped, when a violation makes us return early
-        let mut w = std::mem::ManuallyDrop::new(World { arc, ents: Vec::new(), borrowed_calls: 0, ctx_drop_flag: flag });
+        let mut w = std::mem::ManuallyDrop::new(World { kids_made: alloc::untracked(std::collections::HashMap::new), arc, ents: Vec::new(), borrowed_calls: 0, ctx_drop_flag: flag });
         let mut next_val = 100u64;
         for (step, op) in hist.iter().enumerate() {
             let at = |what: &str| format!("step {} {:?}: {}", step, op, what);
@@ -232,7 +265,7 @@ impl Sut {
                     let imp = NodeImp::new(next_val);
                     let o = trait_obj!((imp, w.ctx()) as Node);
                     let owned = (ids_before..drops.ids()).collect();
-                    w.ents.push((Ent::Node(o), Meta { kind: Kind::Node, owned, holds_ctx: true, val: next_val }));
+                    w.ents.push((Ent::Node(o), Meta { zst: 0, kind: Kind::Node, owned, holds_ctx: true, val: next_val }));
                 }
                 Op::NewGroup(en) => {
                     let ctx = w.ctx();
@@ -243,23 +276,43 @@ impl Sut {
                         _ => group_obj!((LeafImp::new(next_val), ctx) as LeafGrp),
                     };
                     let owned = (ids_before..drops.ids()).collect();
-                    w.ents.push((Ent::Grp(g), Meta { kind: Kind::Grp(en), owned, holds_ctx: true, val: next_val }));
+                    w.ents.push((Ent::Grp(g), Meta { zst: 0, kind: Kind::Grp(en), owned, holds_ctx: true, val: next_val }));
                 }
                 Op::NewLeaf => {
                     let o = trait_obj!((LeafImp::new(next_val), w.ctx()) as Leaf);
                     let owned = (ids_before..drops.ids()).collect();
-                    w.ents.push((Ent::Leaf(o), Meta { kind: Kind::Leaf, owned, holds_ctx: true, val: next_val }));
+                    w.ents.push((Ent::Leaf(o), Meta { zst: 0, kind: Kind::Leaf, owned, holds_ctx: true, val: next_val }));
                 }
                 Op::NewCBox => {
                     let b = CBox::from(DcHeap::new(next_val));
                     let owned = (ids_before..drops.ids()).collect();
-                    w.ents.push((Ent::Boxed(b), Meta { kind: Kind::Boxed, owned, holds_ctx: false, val: next_val }));
+                    w.ents.push((Ent::Boxed(b), Meta { zst: 0, kind: Kind::Boxed, owned, holds_ctx: false, val: next_val }));
                 }
                 Op::NewSliceBox(n) => {
                     let v: Vec<DcHeap> = (0..n as u64).map(|k| DcHeap::new(next_val + k)).collect();
                     let b = CSliceBox::from(v.into_boxed_slice());
                     let owned = (ids_before..drops.ids()).collect();
-                    w.ents.push((Ent::Slice(b), Meta { kind: Kind::Slice, owned, holds_ctx: false, val: n as u64 }));
+                    w.ents.push((Ent::Slice(b), Meta { zst: 0, kind: Kind::Slice, owned, holds_ctx: false, val: n as u64 }));
+                }
+                Op::NewCBoxZst => {
+                    let b = CBox::from(DcZst::new());
+                    w.ents.push((Ent::BoxedZ(b), Meta { zst: 1, kind: Kind::BoxedZ, owned: vec![], holds_ctx: false, val: 0 }));
+                }
+                Op::NewSliceBoxZst(n) => {
+                    let v: Vec<DcZst> = (0..n).map(|_| DcZst::new()).collect();
+                    let b = CSliceBox::from(v.into_boxed_slice());
+                    w.ents.push((Ent::SliceZ(b), Meta { zst: n, kind: Kind::SliceZ(n), owned: vec![], holds_ctx: false, val: n as u64 }));
+                }
+                Op::IntoOpaque(i) => {
+                    let (e, m) = w.ents.remove(i);
+                    let ne = match e {
+                        Ent::Boxed(b) => (Ent::OBoxed(b.into_opaque()), Kind::OBoxed(0)),
+                        Ent::BoxedZ(b) => (Ent::OBoxed(b.into_opaque()), Kind::OBoxed(1)),
+                        Ent::Slice(b) => (Ent::OSlice(b.into_opaque()), Kind::OSlice(0)),
+                        Ent::SliceZ(b) => (Ent::OSlice(b.into_opaque()), Kind::OSlice(1)),
+                        _ => unreachable!(),
+                    };
+                    w.ents.insert(i, (ne.0, Meta { kind: ne.1, ..m }));
                 }
                 Op::Call(i) => {
                     let (e, m) = &w.ents[i];
@@ -272,6 +325,8 @@ impl Sut {
                         Ent::GCE(o) => o.val() + o.extra() - o.val() - 1,
                         Ent::Fin(o) => o.dval(),
                         Ent::Boxed(b) => b.val(),
+                        Ent::BoxedZ(_) | Ent::OBoxed(_) | Ent::OSlice(_) => m.val,
+                        Ent::SliceZ(b) => b.len() as u64,
                         Ent::Slice(b) => {
                             let mut k = 0;
                             for (j, d) in b.iter().enumerate() {
@@ -303,11 +358,13 @@ impl Sut {
                         let v = l.val();
                         (Ent::Leaf(l), Kind::Leaf, v)
                     };
+                    let node_key = w.ents[i].1.owned[0];
+                    alloc::untracked(|| *w.kids_made.entry(node_key).or_insert(0) += 1);
                     let owned: Vec<usize> = (ids_before..drops.ids()).collect();
                     if owned.len() != 1 {
                         return Err(("life:child_payloads".into(), at(&format!("obtaining an owned child created {} payloads", owned.len()))));
                     }
-                    w.ents.push((ent, Meta { kind, owned, holds_ctx: true, val }));
+                    w.ents.push((ent, Meta { zst: 0, kind, owned, holds_ctx: true, val }));
                 }
                 Op::ChildRef(i) | Op::ChildMut(i) | Op::ChildGroupRef(i) => {
                     let base = w.ents[i].1.val;
@@ -333,6 +390,35 @@ impl Sut {
                     }
                     w.borrowed_calls += 1;
                 }
+                Op::ConsumeTry(i) | Op::ConsumeTryInt(i) => {
+                    let (e, m) = w.ents.remove(i);
+                    let node = match e {
+                        Ent::Node(o) => o,
+                        _ => unreachable!(),
+                    };
+                    // children handed out so far: ids created after the node's own four, tracked in `val` of the meta? no:
+                    // the implementor counts them itself; the model mirrors it in `kids_made`
+                    let expect_ok = w.kids_made.get(&m.owned[0]).copied().unwrap_or(0) % 2 == 0;
+                    let r = if matches!(op, Op::ConsumeTry(_)) { node.consume_try() } else { node.consume_try_int() };
+                    match r {
+                        Ok(l) => {
+                            if !expect_ok {
+                                std::mem::forget(l);
+                                return Err(("life:consume_result".into(), at("consuming call returned Ok where the direct call returns Err")));
+                            }
+                            let v = l.val();
+                            if v != m.val + 1 {
+                                return Err(("life:consume_result".into(), at("consuming call returned a wrong child")));
+                            }
+                            w.ents.push((Ent::Leaf(l), Meta { zst: 0, kind: Kind::Leaf, owned: vec![m.owned[1]], holds_ctx: true, val: v }));
+                        }
+                        Err(()) => {
+                            if expect_ok {
+                                return Err(("life:consume_result".into(), at("consuming call returned Err where the direct call returns Ok")));
+                            }
+                        }
+                    }
+                }
                 Op::Consume(i) | Op::ConsumeInto(i) => {
                     let (e, m) = w.ents.remove(i);
                     let node = match e {
@@ -351,7 +437,7 @@ impl Sut {
                             return Err(("life:consume_result".into(), at("consuming call returned a wrong child")));
                         }
                         // the kid payload (second id of the node) moves into the new leaf object
-                        w.ents.push((Ent::Leaf(l), Meta { kind: Kind::Leaf, owned: vec![m.owned[1]], holds_ctx: true, val: v }));
+                        w.ents.push((Ent::Leaf(l), Meta { zst: 0, kind: Kind::Leaf, owned: vec![m.owned[1]], holds_ctx: true, val: v }));
                     }
                 }
                 Op::Check(i, s) | Op::AsRef(i, s) | Op::AsMut(i, s) => {
@@ -398,7 +484,7 @@ impl Sut {
                         return Err(("life:clone_value".into(), at("clone reads a wrong value")));
                     }
                     let owned: Vec<usize> = (ids_before..drops.ids()).collect();
-                    w.ents.push((Ent::Fin(Box::new(c)), Meta { kind: Kind::Fin, owned, holds_ctx: true, val: val + 1000 }));
+                    w.ents.push((Ent::Fin(Box::new(c)), Meta { zst: 0, kind: Kind::Fin, owned, holds_ctx: true, val: val + 1000 }));
                 }
                 Op::Cast(i, s) | Op::Into(i, s) => {
                     let (e, m) = w.ents.remove(i);
@@ -425,7 +511,7 @@ impl Sut {
                                 std::mem::forget(ent);
                                 return Err(("life:cast_decision".into(), at("cast succeeded although a requested trait is not enabled")));
                             }
-                            w.ents.insert(i, (ent, Meta { kind, owned: m.owned, holds_ctx: true, val: m.val }));
+                            w.ents.insert(i, (ent, Meta { zst: 0, kind, owned: m.owned, holds_ctx: true, val: m.val }));
                         }
                         None => {
                             if expect {
@@ -443,7 +529,7 @@ impl Sut {
                         (Ent::GCE(x), Kind::GCE(en)) => (x.upcast(), *en),
                         _ => unreachable!(),
                     };
-                    w.ents.insert(i, (Ent::Grp(g), Meta { kind: Kind::Grp(en), owned: m.owned, holds_ctx: true, val: m.val }));
+                    w.ents.insert(i, (Ent::Grp(g), Meta { zst: 0, kind: Kind::Grp(en), owned: m.owned, holds_ctx: true, val: m.val }));
                 }
                 Op::CloneCast(i) => {
                     let val = w.ents[i].1.val;
@@ -453,7 +539,7 @@ impl Sut {
                         _ => unreachable!(),
                     };
                     let owned: Vec<usize> = (ids_before..drops.ids()).collect();
-                    w.ents.push((c, Meta { kind, owned, holds_ctx: true, val: val + 1000 }));
+                    w.ents.push((c, Meta { zst: 0, kind, owned, holds_ctx: true, val: val + 1000 }));
                 }
                 Op::Drop(i) => {
                     let (e, _m) = w.ents.remove(i);
@@ -490,6 +576,12 @@ impl Sut {
         if !bad.is_empty() {
             return Err(("life:payload_drop".into(), format!("payload ids {:?} not dropped exactly once: {:?}", bad, drops.counts())));
         }
+        let (zn, zd) = DcZst::stats();
+        if zn != zd {
+            return Err(("life:zst_leak".into(), format!("teardown: {} zero-sized payloads constructed, {} dropped", zn, zd)));
+        }
+        alloc::untracked(|| world.kids_made.clear());
+        world.kids_made = alloc::untracked(std::collections::HashMap::new);
         let flag = world.ctx_drop_flag.clone();
         let world = std::mem::ManuallyDrop::into_inner(world);
         if leak > 0 {
@@ -520,6 +612,11 @@ impl Sut {
                 let sig = if c > want { if want == 0 { "life:early_drop" } else { "life:double_drop" } } else { "life:leak" };
                 return Err((sig.into(), at(&format!("payload {} has drop count {} expected {}", id, c, want))));
             }
+        }
+        let zst_live: u64 = w.ents.iter().map(|e| e.1.zst as u64).sum();
+        let (zn, zd) = DcZst::stats();
+        if zn - zd != zst_live {
+            return Err((if zn - zd > zst_live { "life:zst_leak" } else { "life:zst_double_drop" }.into(), at(&format!("{} zero-sized payloads constructed, {} dropped, {} owned by live objects", zn, zd, zst_live))));
         }
         // C07: the context count is the number of live holders
         let holders = w.ents.iter().filter(|e| e.1.holds_ctx).count() as u64;
@@ -583,9 +680,11 @@ fn probe_leak() -> Option<String> {
     None
 }
 
-/// The context must not be released inside the callee of a consuming call.
-fn consume_last(pre: &[u8], into: bool) -> CaseOut {
+/// The context must not be released inside the callee of a consuming call, and not before the instance of the
+/// last object is destroyed. kind: 0 = consume, 1 = consume_into, 2 = consume_try (CResult), 3 = consume_try_int
+fn consume_last(pre: &[u8], kind: u8) -> CaseOut {
     CAPTURE.with(|c| c.set(true));
+    CTX_SEQ.with(|c| c.set(0));
     let flag = Arc::new(AtomicU64::new(0));
     let arc = Arc::new(CtxP { dropped: flag.clone() });
     let ctx: Ctx = CArc::<CtxP>::from(arc).into_opaque();
@@ -605,17 +704,76 @@ fn consume_last(pre: &[u8], into: bool) -> CaseOut {
             }
         }
     }
-    let kept = if into { Some(node.consume_into()) } else { node.consume(); None };
+    let kept: Option<LeafArcBox<'static>> = match kind {
+        0 => {
+            node.consume();
+            None
+        }
+        1 => Some(node.consume_into()),
+        2 => node.consume_try().ok(),
+        _ => node.consume_try_int().ok(),
+    };
     let after_call = flag.load(SeqCst);
+    let has_child = kept.is_some();
     drop(kept);
     let end = flag.load(SeqCst);
     if after_call == 2 || end == 2 {
-        return CaseOut::bad("ctx:released_inside_consuming_call", format!("the last reference to the context was released while a generated wrapper frame (cglue_wrapped_*) was still on the stack (pre-ops {:?}, returns child: {})", pre, into));
+        return CaseOut::bad("ctx:released_inside_consuming_call", format!("the last reference to the context was released while a generated wrapper frame (cglue_wrapped_*) was still on the stack (pre-ops {:?}, consuming call kind {}, returned a child: {})", pre, kind, has_child));
     }
-    if into && after_call != 0 {
+    if has_child && after_call != 0 {
         return CaseOut::bad("ctx:released_early", "the context was released although the returned child object still exists");
     }
-    CaseOut::ok(digest(&(pre, into, after_call, end)))
+    if end != 0 && CTX_SEQ.with(|c| c.get()) < defs::LAST_PAYLOAD_DROP.with(|c| c.get()) {
+        return CaseOut::bad("ctx:released_before_instance", "the context was released before the instance of the last derived object was destroyed");
+    }
+    CaseOut::ok(digest(&(pre, kind, after_call, end)))
+}
+
+/// An object that is the last holder of the context is dropped: the instance must be destroyed before the
+/// context is released. which: 0 node object, 1 leaf object, 2..=5 group (enabled sets), 6 cast group (Clone),
+/// 7 final group (Extra), 8 owned child object of a dropped parent, 9 owned child group of a dropped parent
+fn last_holder_drop(which: u8) -> CaseOut {
+    CAPTURE.with(|c| c.set(true));
+    CTX_SEQ.with(|c| c.set(0));
+    let flag = Arc::new(AtomicU64::new(0));
+    let arc = Arc::new(CtxP { dropped: flag.clone() });
+    let ctx: Ctx = CArc::<CtxP>::from(arc).into_opaque();
+    match which {
+        0 => drop(trait_obj!((NodeImp::new(10), ctx) as Node)),
+        1 => drop(trait_obj!((LeafImp::new(10), ctx) as Leaf)),
+        2 => drop(group_obj!((LeafNone(LeafImp::new(10)), ctx) as LeafGrp)),
+        3 => drop(group_obj!((LeafE(LeafImp::new(10)), ctx) as LeafGrp)),
+        4 => drop(group_obj!((LeafC(LeafImp::new(10)), ctx) as LeafGrp)),
+        5 => drop(group_obj!((LeafImp::new(10), ctx) as LeafGrp)),
+        6 => {
+            let g = group_obj!((LeafImp::new(10), ctx) as LeafGrp);
+            drop(cast!(g impl Clone));
+        }
+        7 => {
+            let g = group_obj!((LeafImp::new(10), ctx) as LeafGrp);
+            drop(into!(g impl Extra));
+        }
+        8 => {
+            let n = trait_obj!((NodeImp::new(10), ctx) as Node);
+            let c = n.child();
+            drop(n);
+            drop(c);
+        }
+        _ => {
+            let n = trait_obj!((NodeImp::new(10), ctx) as Node);
+            let c = n.child_group();
+            drop(n);
+            drop(c);
+        }
+    }
+    let end = flag.load(SeqCst);
+    if end == 0 {
+        return CaseOut::bad("ctx:not_released", "the context was not released after the last derived object was dropped");
+    }
+    if CTX_SEQ.with(|c| c.get()) < defs::LAST_PAYLOAD_DROP.with(|c| c.get()) {
+        return CaseOut::bad("ctx:released_before_instance", format!("object kind {}: the context was released before the instance of the last derived object was destroyed", which));
+    }
+    CaseOut::ok(digest(&(which, end)))
 }
 
 fn main() {
@@ -629,7 +787,10 @@ fn main() {
         Box::new(move |case: &Value| {
             if case.get("consume_last").is_some() {
                 let pre: Vec<u8> = serde_json::from_value(case["pre"].clone()).unwrap();
-                return consume_last(&pre, case["into"].as_bool().unwrap());
+                return consume_last(&pre, case["kind"].as_u64().unwrap() as u8);
+            }
+            if case.get("last_holder").is_some() {
+                return last_holder_drop(case["last_holder"].as_u64().unwrap() as u8);
             }
             if case.get("probe").is_some() {
                 return match probe_leak() {
@@ -681,7 +842,7 @@ fn main() {
         sections.push(Section {
             name: "consume_last",
             explore: Box::new(|cx: &Cx| {
-                cx.rule("consume_last", "the object is the only holder of the context; every sequence of <= 2 prior operations {plain call, owned child obtained and dropped, borrowed child} followed by a consuming call (returning a value / returning a wrapped child): the final release of the context (observed by a backtrace taken in the context payload's Drop) must not happen while a generated cglue_wrapped_* frame is on the stack, and not before the returned child is gone");
+                cx.rule("consume_last", "the object is the only holder of the context; every sequence of <= 2 prior operations {plain call, owned child obtained and dropped, borrowed child} followed by a consuming call (returning a value / a wrapped child / Result<wrapped child> as CResult and integer-coded, Ok and Err): the final release of the context (observed by a backtrace taken in the context payload's Drop) must not happen while a generated cglue_wrapped_* frame is on the stack, and not before the returned child is gone; plus: each kind of object (node, leaf, 4 group variants, cast and final forms, owned children of a dropped parent) dropped as the last holder: the instance must be destroyed before the context is released");
                 let mut pres: Vec<Vec<u8>> = vec![vec![]];
                 for a in 0..3u8 {
                     pres.push(vec![a]);
@@ -690,12 +851,16 @@ fn main() {
                     }
                 }
                 for pre in pres {
-                    for into in [false, true] {
+                    for kind in 0..4u8 {
                         // with the borrowed-child leak present the context is never released at all in histories that
                         // contain such a call: those cases cannot observe the release point
-                        let case = json!({"consume_last": true, "pre": pre, "into": into});
-                        cx.eval("consume_last", &case, || consume_last(&pre, into));
+                        let case = json!({"consume_last": true, "pre": pre, "kind": kind});
+                        cx.eval("consume_last", &case, || consume_last(&pre, kind));
                     }
+                }
+                for which in 0..10u8 {
+                    let case = json!({"last_holder": which});
+                    cx.eval("consume_last", &case, || last_holder_drop(which));
                 }
             }),
             replay: mk_replay(),
